@@ -1542,6 +1542,8 @@ class Interp(object):
         undeclared = [v for v in assigned - tnames if v not in spec.havoc and not v.startswith("_")]
         locals_in_body = spec.havoc.get("__locals__", ())
         undeclared = [v for v in undeclared if v not in locals_in_body]
+        # names the for statement itself assigns each iteration (per loop: loops of one function share the env)
+        env.vars["__loop_targets__:" + spec.name] = frozenset(tnames)
         self._check_inv(spec, env, 0, st, "init", qual)
         for v in list(undeclared) + list(locals_in_body):
             if v in assigned:
